@@ -120,6 +120,23 @@ func execGap(h GH, rec *pbt.Rec) error {
 	if rr, err := x.Call(&xp.Req{Op: "store-open", Name: "f", Path: dir + "/follower/db"}, 60*time.Second); err != nil || rr.Err != "" {
 		return un("open follower store: %v %v", err, rr)
 	}
+	// the follower's half of a refusal: when the stream breaks with an error (the leader
+	// refusing, or the connection dying) before or between batches, loading must FAIL so
+	// that the node does not consider itself restored
+	if h.LieBy != 0 || h.StartPct%2 == 1 {
+		failAt := 1 + (h.StartPct+h.EndPct)%(shipped+1)
+		rr, err := x.Call(&xp.Req{Op: "store-load-snapshot", Name: "f", Chunks: r.Chunks, A: uint64(failAt)}, 60*time.Second)
+		if err != nil {
+			return fmt.Errorf("%s: loading a stream that breaks after %d batches killed the process: %v", tag, failAt-1, err)
+		}
+		if rr.Err == "" {
+			return fmt.Errorf("%s: the transfer stream broke with an error after %d of %d batches, yet LoadSnapshot reported success: a refused / interrupted transfer is taken for a complete one", tag, failAt-1, shipped)
+		}
+		rec.Class("stream-broken", 1)
+		rec.Case(h, true)
+		rec.Sample(len(h.Bulks), h)
+		return nil
+	}
 	if rr, err := x.Call(&xp.Req{Op: "store-load-snapshot", Name: "f", Chunks: r.Chunks}, 60*time.Second); err != nil {
 		return fmt.Errorf("%s: loading the shipped batches killed the process: %v", tag, err)
 	} else if rr.Err != "" {
